@@ -18,7 +18,7 @@ REQUIRED_TAGS = ['update-seen', 'error-update-seen', 'omitted']
 LIMITS = {'quick': {'max_paths': 30000, 'max_s': 150}, 'thorough': {'max_paths': 300000, 'max_s': 900}}
 
 OPS = ['read-ok', 'read-secop-error', 'read-other-error', 'read-invalid', 'write', 'assign', 'assign-same', 'announce-error',
-       'read-ok-n', 'assign-struct']
+       'read-ok-n', 'assign-struct', 'announce-with-timestamp']
 
 
 def cases(tier):
@@ -93,6 +93,13 @@ def run_history(env, p):
     state = {}
     seen = 0
     K = 'C05'
+    # further connections with narrower scopes must not take updates away from the generally activated one
+    narrow = C.Conn('param-scope')
+    srv.dispatcher.handle_request(narrow, ('activate', 'm:_v', None))
+    modscope = C.Conn('module-scope')
+    srv.dispatcher.handle_request(modscope, ('activate', 'm', None))
+    nstate, mstate = fold(narrow.sent, {}), fold(modscope.sent, {})
+    nseen, mseen = len(narrow.sent), len(modscope.sent)
     for step in range(p['depth'] + 1):
         if step == p['activate_at']:
             reply = srv.dispatcher.handle_request(conn, ('activate', None, None))
@@ -143,6 +150,13 @@ def run_history(env, p):
                 mod.v = mod.v
             elif name == 'assign-struct':
                 mod.s = {'a': env.real(f'x{step}', -10, 10), 'b': 1}
+            elif name == 'announce-with-timestamp':
+                # a value with its own (possibly older) time stamp, e.g. from a remote node with a lagging clock
+                x = env.real(f'x{step}', -1000, 1000)
+                ts = env.real(f'ts{step}', 900, 1300)
+                env.assume(x != mod.v)
+                expect = ('v', 'ok', x)
+                mod.announceUpdate('v', x, timestamp=ts)
             elif name == 'announce-error':
                 expect = ('v', 'err', 'HardwareError')
                 mod.announceUpdate('v', err=HardwareError('hw'))
@@ -151,6 +165,11 @@ def run_history(env, p):
         new = conn.sent[seen:]
         seen = len(conn.sent)
         after = cache_state(mod)
+        fold(narrow.sent[nseen:], nstate)
+        fold(modscope.sent[mseen:], mstate)
+        nseen, mseen = len(narrow.sent), len(modscope.sent)
+        compare(env, nstate, {k: v for k, v in after.items() if k == 'm:_v'}, K + f'/{name}/parameter-scope-stream-differs-from-cache')
+        compare(env, mstate, after, K + f'/{name}/module-scope-stream-differs-from-cache')
         if expect:
             # the cache itself reflects the outcome of the operation (a recovery clears the error)
             pobj = mod.parameters[expect[0]]
